@@ -9,12 +9,14 @@ struct PmrCfg {
 	using elem  = Tracked;
 	using alloc = std::pmr::polymorphic_allocator<Tracked>;
 	template<int D> using array_t = boost::multi::pmr::array<Tracked, D>;
+	template<int D> struct array_t_lazy { using type = boost::multi::pmr::array<Tracked, D>; };
 	// polymorphic_allocator never propagates and select_on_container_copy_construction() returns the default resource
 	static constexpr bool pocca = false, pocma = false, pocs = false, soccc_default = true, fancy = false;
 	static constexpr int  dmin = 1, dmax = 2;
 	static constexpr bool static_arrays = false;
 	static constexpr bool serialization = false;
 	static constexpr bool mpi = false;
+	static constexpr bool default_init = false;
 	static auto make_alloc(int arena) -> alloc { return alloc{&pmr_res(arena)}; }
 	static int  arena_of(alloc const& a) {
 		for(int i = 0; i < World::NARENA; ++i)
